@@ -37,7 +37,7 @@ func modelsC04(tier string) ([]*PktModel, []int) {
 		// every held token is also offered for transfer by the user who does not own it
 		nft3("nft3-not-owner", props, NftScenario{MaxUserTx: 3, Receivers: []int{1}, Thieves: true}, ""),
 		// a native class with the same name and token id on the relay chain, transfers also through relay chains
-		nft3("nft3-same-class-name-on-relay-chain", props, NftScenario{MaxUserTx: 3, Receivers: []int{1}, Relays: true, AdvClasses: []string{"cls"}, AdvChains: []string{B}, MaxAdv: 1}, ""),
+		nft3("nft3-same-class-name-on-relay-chain", props, NftScenario{MaxUserTx: 4, Receivers: []int{1}, Relays: true, AdvClasses: []string{"cls"}, AdvChains: []string{B}, MaxAdv: 1}, ""),
 	}
 	depth := []int{9, 8, 7, 9}
 	if tier == "thorough" {
